@@ -27,6 +27,13 @@ def _flatten(v, depth=0):
             out.append(lit(concrete(x)))
             return
         if isinstance(x, Unk) and getattr(x, 'joined', None):
+            sep_, seq_, items_ = x.joined
+            from sa.values import AList as _AList
+            if is_concrete(sep_) and not concrete(sep_) and isinstance(seq_, _AList) and not seq_.unknown:
+                # a join of a definite list of pieces (b''.join([b'#', id, b':', ...])) is the concatenation of the pieces
+                for it_ in seq_.items:
+                    walk(it_, d + 1)
+                return
             out.append(('join', x))
             return
         if isinstance(x, Unk) and x.src:
